@@ -18,6 +18,7 @@ func init() {
 }
 
 func runC07(c *Ctx) {
+	c.rule("skip-flag", "(shared with C04) the flag that lets the update path skip Verify originates only from DelayInitialVerification and the negated enable result: with SkipInitialVerification alone every re-stack is verified, so a blocking report of a rejected value returns the error", 2)
 	c.rule("reply-capacity", "the reply channel placed in a value update is made with a constant capacity >= 1, so the monitor's answer never blocks on an abandoned caller", 1)
 	c.rule("answer-every-exit", "on every path of the re-stack function from entry to a return, a non-nil reply channel is sent exactly one answer (at least one on every path, never two)", 2)
 	c.rule("answer-value", "reject exits answer the tested error; the success exit answers nil and only after the store", 3)
@@ -30,6 +31,7 @@ func runC07(c *Ctx) {
 	if !k.ok {
 		return
 	}
+	k.checkSkipFlag("skip-flag")
 	w := c.W
 	brn := w.fn("", "watchArgs.BlockingReportNewValue")
 	if !c.need(brn != nil, "dials.watchArgs.BlockingReportNewValue") {
@@ -37,31 +39,7 @@ func runC07(c *Ctx) {
 	}
 	c.analysed(relName(brn))
 
-	// ---- reply-capacity -------------------------------------------------------
-	found := false
-	for _, f := range w.funcsIn("") {
-		for _, i := range allInstrs(f) {
-			al, ok := i.(*ssa.Alloc)
-			if !ok || litTypeName(al) != ".valueUpdate" {
-				continue
-			}
-			inst := litField(al, "installed")
-			if inst == nil {
-				continue // non-blocking report: no reply channel
-			}
-			found = true
-			mc, ok := stripConv(inst).(*ssa.MakeChan)
-			if !ok {
-				c.bad("reply-capacity", relName(f), al.Pos(), "the reply channel is not a freshly made channel")
-				continue
-			}
-			n, isC := constInt(mc.Size)
-			c.check(isC && n >= 1, "reply-capacity", relName(f), mc.Pos(), "reply channel has constant capacity >= 1", "reply channel is unbuffered (or of non-constant capacity): the monitor can block forever on a caller whose context ended")
-		}
-	}
-	if !found {
-		c.bad("reply-capacity", "valueUpdate.installed", 0, "no value update carries a reply channel")
-	}
+	c07ReplyCapacity(c)
 
 	// ---- answer-every-exit / answer-value ---------------------------------------
 	for _, f := range k.storeFns {
@@ -301,4 +279,35 @@ func c07Waits(c *Ctx, f *ssa.Function, rule string) {
 func isErrorType(t types.Type) bool {
 	n, ok := t.(*types.Named)
 	return ok && n.Obj().Pkg() == nil && n.Obj().Name() == "error"
+}
+
+// c07ReplyCapacity: every blocking report carries a freshly made reply channel with room for the one answer (shared with C20:
+// a Blank's SetSource is a blocking report, and a monitor stuck on an unbuffered reply installs nothing any more).
+func c07ReplyCapacity(c *Ctx) {
+	w := c.W
+	found := false
+	for _, f := range w.funcsIn("") {
+		for _, i := range allInstrs(f) {
+			al, ok := i.(*ssa.Alloc)
+			if !ok || litTypeName(al) != ".valueUpdate" {
+				continue
+			}
+			inst := litField(al, "installed")
+			if inst == nil {
+				continue // non-blocking report: no reply channel
+			}
+			found = true
+			mc, ok := stripConv(inst).(*ssa.MakeChan)
+			if !ok {
+				c.bad("reply-capacity", relName(f), al.Pos(), "the reply channel is not a freshly made channel")
+				continue
+			}
+			n, isC := constInt(mc.Size)
+			c.check(isC && n >= 1, "reply-capacity", relName(f), mc.Pos(), "reply channel has constant capacity >= 1", "reply channel is unbuffered (or of non-constant capacity): the monitor can block forever on a caller whose context ended")
+		}
+	}
+	if !found {
+		c.bad("reply-capacity", "valueUpdate.installed", 0, "no value update carries a reply channel")
+	}
+
 }
